@@ -56,7 +56,10 @@ func extractName(method string, params json.RawMessage) (string, bool) {
 
 // headerSchemaProperty captures the fields needed for x-mcp-header processing.
 type headerSchemaProperty struct {
-	Type       string                          `json:"type"`
+	// Type is kept raw: "type" may be a string or an array of strings (schema
+	// inference emits ["null","string"] for a pointer field), and a property
+	// that merely has the array form must not make the whole schema unreadable.
+	Type       json.RawMessage                 `json:"type,omitempty"`
 	XMCPHeader json.RawMessage                 `json:"x-mcp-header,omitempty"`
 	Properties map[string]headerSchemaProperty `json:"properties,omitempty"`
 }
@@ -296,8 +299,10 @@ func validateParamHeadersIn(props map[string]headerSchemaProperty, prefix string
 			path = prefix + "." + propName
 		}
 		if prop.XMCPHeader != nil {
-			if prop.Type != "string" && prop.Type != "integer" && prop.Type != "boolean" {
-				return fmt.Errorf("property %q: x-mcp-header can only be applied to primitive types (integer, string, boolean), got %q", path, prop.Type)
+			typ := string(prop.Type)
+			_ = json.Unmarshal(prop.Type, &typ) // a single type name; the array form stays as written
+			if typ != "string" && typ != "integer" && typ != "boolean" {
+				return fmt.Errorf("property %q: x-mcp-header can only be applied to primitive types (integer, string, boolean), got %q", path, typ)
 			}
 			var headerName string
 			if err := json.Unmarshal(prop.XMCPHeader, &headerName); err != nil || headerName == "" {
